@@ -75,10 +75,10 @@ Proof. exact wf_ranges_validate. Qed.
 Print Assumptions C08_ack_ranges_valid.
 
 (** MaxDataLen: any amount of STREAM data up to MaxDataLen(maxSize) yields a frame of at most
-    maxSize bytes (data lengths that fit a 2-byte varint, i.e. every real packet) ... *)
+    maxSize bytes, for EVERY maxSize a varint can express (length fields of 1, 2, 4 and 8 bytes) ... *)
 Theorem C08_maxdatalen_stream : forall sid off dlp maxSize data,
-  vwf sid -> vwf off ->
-  zlen data <= maxdatalen_stream sid off dlp maxSize -> zlen data <= maxVarInt2 ->
+  vwf sid -> vwf off -> maxSize <= maxVarInt8 ->
+  zlen data <= maxdatalen_stream sid off dlp maxSize ->
   0 < maxdatalen_stream sid off dlp maxSize ->
   length_stream sid off data dlp <= maxSize.
 Proof. exact maxdatalen_stream_fits. Qed.
@@ -86,37 +86,44 @@ Print Assumptions C08_maxdatalen_stream.
 
 (** ... and one byte more would not fit. *)
 Theorem C08_maxdatalen_stream_maximal : forall sid off dlp maxSize data,
-  0 <= maxSize -> 0 < stream_hdr_len sid off -> vwf (zlen data) ->
+  0 <= maxSize <= maxVarInt8 -> 0 < stream_hdr_len sid off -> vwf (zlen data) ->
   maxdatalen_stream sid off dlp maxSize < zlen data ->
   maxSize < length_stream sid off data dlp.
 Proof. exact maxdatalen_stream_maximal. Qed.
 Print Assumptions C08_maxdatalen_stream_maximal.
 
 Theorem C08_maxdatalen_crypto : forall off maxSize data,
-  vwf off -> zlen data <= maxdatalen_crypto off maxSize -> zlen data <= maxVarInt2 ->
+  vwf off -> maxSize <= maxVarInt8 -> zlen data <= maxdatalen_crypto off maxSize ->
   0 < maxdatalen_crypto off maxSize -> length_crypto off data <= maxSize.
 Proof. exact maxdatalen_crypto_fits. Qed.
 Print Assumptions C08_maxdatalen_crypto.
 
+Theorem C08_maxdatalen_crypto_maximal : forall off maxSize data,
+  vwf off -> 0 <= maxSize <= maxVarInt8 -> vwf (zlen data) ->
+  maxdatalen_crypto off maxSize < zlen data -> maxSize < length_crypto off data.
+Proof. exact maxdatalen_crypto_maximal. Qed.
+Print Assumptions C08_maxdatalen_crypto_maximal.
+
 Theorem C08_maxdatalen_datagram : forall dlp maxSize data,
-  zlen data <= maxdatalen_datagram dlp maxSize -> zlen data <= maxVarInt2 ->
+  maxSize <= maxVarInt8 -> zlen data <= maxdatalen_datagram dlp maxSize ->
   0 < maxdatalen_datagram dlp maxSize -> length_datagram dlp data <= maxSize.
 Proof. exact maxdatalen_datagram_fits. Qed.
 Print Assumptions C08_maxdatalen_datagram.
 
-(** Outside that domain the bound is false: MaxDataLen(16390) of a CRYPTO frame at offset 0
-    allows 16386 bytes of data, which makes a 16392-byte frame. (Unreachable: packets are at most
-    MaxPacketBufferSize = 1452 bytes. Replayed on the implementation by the harness.) *)
-Theorem C08_maxdatalen_refuted_large : exists off maxSize, forall data,
-  zlen data = maxdatalen_crypto off maxSize -> maxSize < length_crypto off data.
-Proof. exact maxdatalen_crypto_refuted_large. Qed.
-Print Assumptions C08_maxdatalen_refuted_large.
+(** Regression (fixed finding frames/maxdatalen-overshoot-large): MaxDataLen(16390) of a CRYPTO frame
+    at offset 0 used to allow 16386 bytes (a 16392-byte frame); it now allows 16384 bytes and the
+    frame has exactly 16390 bytes. *)
+Example C08_maxdatalen_large_regression :
+  maxdatalen_crypto 0 16390 = 16384 /\
+  (forall data, zlen data = 16384 -> length_crypto 0 data = 16390).
+Proof. exact maxdatalen_crypto_large_regression. Qed.
+Print Assumptions C08_maxdatalen_large_regression.
 
 (** MaybeSplitOffFrame (STREAM): nothing changes when the frame fits or nothing fits; otherwise
     the two frames carry exactly the original byte range at the right offsets, FIN stays on the
     second, and the first fits into maxSize with at least one byte of data. *)
 Theorem C08_split_stream : forall sid off data fin dlp maxSize,
-  wf_stream sid off data fin -> 0 <= maxSize ->
+  wf_stream sid off data fin -> 0 <= maxSize <= maxVarInt8 ->
   match split_stream sid off data fin dlp maxSize with
   | (None, false, f') => f' = FStream sid off data fin dlp /\ length_stream sid off data dlp <= maxSize
   | (None, true, f') => f' = FStream sid off data fin dlp /\ maxSize < length_stream sid off data dlp
@@ -131,7 +138,7 @@ Proof. exact split_stream_spec. Qed.
 Print Assumptions C08_split_stream.
 
 Theorem C08_split_crypto : forall off data maxSize,
-  wf_crypto off data -> zlen data <= maxVarInt2 -> 0 <= maxSize ->
+  wf_crypto off data -> 0 <= maxSize <= maxVarInt8 ->
   match split_crypto off data maxSize with
   | (None, false, f') => f' = FCrypto off data /\ length_crypto off data <= maxSize
   | (None, true, f') => f' = FCrypto off data /\ maxSize < length_crypto off data /\ maxdatalen_crypto off maxSize = 0
@@ -215,14 +222,14 @@ Theorem C08_reject_unknown_type : forall c lvl t body,
 Proof. exact reject_unknown_type. Qed.
 Print Assumptions C08_reject_unknown_type.
 
-(** The per-level allow-list (generated from isAllowedAtEncLevel): everything it allows RFC 9000
-    table 3 allows, except HANDSHAKE_DONE at the 0-RTT level; Initial/Handshake allow exactly
-    PING, ACK, CRYPTO and CONNECTION_CLOSE(0x1c). *)
-Theorem C08_allow_list_within_rfc :
+(** The per-level allow-list (generated from isAllowedAtEncLevel) is exactly table 3 of RFC 9000
+    (section 12.4), except that CONNECTION_CLOSE 0x1c is refused in 0-RTT (stricter than the table);
+    Initial/Handshake allow exactly PING, ACK, CRYPTO and CONNECTION_CLOSE(0x1c). *)
+Theorem C08_allow_list_rfc_table3 :
   forallb (fun lvl => forallb (fun t =>
-     implb (type_allowed lvl t) (rfc9000_allowed lvl t || ((lvl =? 3) && (t =? 30)))) all_types) [1; 2; 3; 4] = true.
-Proof. exact allow_list_within_rfc. Qed.
-Print Assumptions C08_allow_list_within_rfc.
+     Bool.eqb (type_allowed lvl t) (rfc9000_allowed lvl t && negb ((lvl =? 3) && (t =? 28)))) all_types) [1; 2; 3; 4] = true.
+Proof. exact allow_list_is_rfc_table3. Qed.
+Print Assumptions C08_allow_list_rfc_table3.
 
 Theorem C08_allow_list_initial_handshake :
   forallb (fun lvl => forallb (fun t =>
@@ -230,11 +237,12 @@ Theorem C08_allow_list_initial_handshake :
 Proof. exact allow_list_initial_handshake. Qed.
 Print Assumptions C08_allow_list_initial_handshake.
 
-(** FINDING (low): the faithful table accepts HANDSHAKE_DONE (0x1e) in 0-RTT packets. *)
-Theorem C08_allow_list_0rtt_handshake_done_refuted :
-  exists lvl t, rfc9000_allowed lvl t = false /\ type_allowed lvl t = true /\ type_valid (Cfg false false false 3) t = true.
-Proof. exact allow_list_0rtt_handshake_done_refuted. Qed.
-Print Assumptions C08_allow_list_0rtt_handshake_done_refuted.
+(** Regression (fixed finding frames/level/accepted-0x1e-at-3): HANDSHAKE_DONE (0x1e) in a 0-RTT
+    packet is refused by ParseType, whatever follows and whatever the parser configuration. *)
+Example C08_handshake_done_0rtt_rejected : forall c body,
+  type_allowed 3 FT_HandshakeDone = false /\ parse_next c 3 (FT_HandshakeDone :: body) = Err 5 1.
+Proof. exact handshake_done_0rtt_rejected. Qed.
+Print Assumptions C08_handshake_done_0rtt_rejected.
 
 (** Claim (a) on the model: a successful parse returns a genuine suffix of its input, reports
     exactly the number of bytes in front of it, consumes at least one byte and never more than
@@ -447,6 +455,43 @@ Example C08_tparams_reject_example :
   unmarshal Server false (enc_params [(TP_ID_iscid, [1])]) = Err E_TP_MISSING_ODCID 0.
 Proof. exact ex_range_rejected. Qed.
 Print Assumptions C08_tparams_reject_example.
+(** Claim (c) for transport parameters (possible since the repairs of max_idle_timeout / min_ack_delay):
+    everything Unmarshal accepts from a byte string is a well-formed value; Marshal's encoding of it
+    (whatever the 18 random bytes of the greased parameter) is accepted again and yields the same
+    value — parse -> Marshal -> parse is a fixpoint — except that a saturated max_idle_timeout
+    (2^63-1 ns) comes back cut to whole milliseconds. *)
+From V Require Import Wire.TParamsReencode.
+
+Theorem C08_tparams_parsed_wf : forall pers b p,
+  bytes b -> unmarshal pers false b = Ok p ->
+  tp_wf p /\ (tp_mit p <> maxInt64 -> tp_norm pers p = p).
+Proof. exact unmarshal_wf. Qed.
+Print Assumptions C08_tparams_parsed_wf.
+
+Theorem C08_tparams_reencode : forall pers rnd b p,
+  bytes b -> length rnd = 18%nat -> Forall is_byte rnd ->
+  unmarshal pers false b = Ok p ->
+  unmarshal pers false (marshal pers rnd p) = Ok (tp_norm pers p) /\
+  (tp_mit p <> maxInt64 -> unmarshal pers false (marshal pers rnd p) = Ok p).
+Proof. exact tparams_reencode. Qed.
+Print Assumptions C08_tparams_reencode.
+
+Example C08_tparams_reencode_nonvacuous :
+  bytes (enc_params ex_ps_server) /\
+  (exists p, unmarshal Server false (enc_params ex_ps_server) = Ok p /\ tp_mit p <> maxInt64) /\
+  (* regressions of the three repaired findings: an explicit 0 means "none", huge values saturate / are refused *)
+  (exists p, unmarshal Server false (enc_params (ex_ps_server ++ [(TP_ID_mit, vappend 0)])) = Ok p /\ tp_mit p = 0) /\
+  (exists p, unmarshal Server false (enc_params (ex_ps_server ++ [(TP_ID_mit, vappend (2 ^ 62 - 2))])) = Ok p /\ tp_mit p = maxInt64) /\
+  is_err (unmarshal Server false (enc_params (ex_ps_server ++ [(TP_ID_minad, vappend (2 ^ 61))]))).
+Proof.
+  split; [vm_compute; repeat constructor; discriminate|].
+  split; [eexists; split; [vm_compute; reflexivity | vm_compute; discriminate]|].
+  split; [eexists; split; vm_compute; reflexivity|].
+  split; [eexists; split; vm_compute; reflexivity|].
+  vm_compute. exact I.
+Qed.
+Print Assumptions C08_tparams_reencode_nonvacuous.
+
 (* ==== end tparams ==== *)
 (* ==== headers ==== *)
 (** Packet headers (coq/Wire/Headers.v mirrors internal/wire/header.go, extended_header.go,
